@@ -710,4 +710,105 @@ Proof.
     destruct (Connectable.sado_dispose cid (get_conn b cid)) as [c1 evs]. cbn [k_log snd] in *.
     rewrite nssub_app, G. ns.
 Qed.
+
+(* a notification of the source reaches the subject only through a subscription that is alive
+   (which, by [open_subscription_is_the_latest_connection], is THE open subscription of the
+   latest connection) and whose observer has not seen a terminal notification *)
+Theorem source_notification_dropped st b m cid n k l :
+  s_live (get_conn b cid) = false \/ s_stopped (get_conn b cid) = true ->
+  stepk (KCfg st b m (KSrc cid n :: k) l) = KCfg st b m k l.
+Proof.
+  intros H. cbn. destruct (s_live (get_conn b cid)); cbn; [|reflexivity].
+  destruct H as [H|H]; [discriminate|]. now rewrite H.
+Qed.
+
+Theorem source_notification_forwarded st b m cid v k l :
+  s_live (get_conn b cid) = true -> s_stopped (get_conn b cid) = false ->
+  stepk (KCfg st b m (KSrc cid (Next v) :: k) l) = KCfg st b m (map KS (e_call (SNext v)) ++ k) l.
+Proof. intros H1 H2. cbn. now rewrite H1, H2. Qed.
 End Facts.
+
+(* ---- multicast(subject_factory, mapper): every subscription is its own connection ---- *)
+Section MapperFacts.
+Context {A E_st E_in E_op : Type}.
+Context (e_exec : E_in -> E_st -> E_st * list E_in * list (@sev A E_op)).
+Context (e_call : @sop A -> list E_in).
+Context (e_drain : list E_in).
+Context (cold : list (ev A)) (st0 : E_st) (fuel : nat).
+Notation kc := (@kcfg A E_st E_in E_op).
+Notation csil := (fun (_ _ : nat) => @nil (@cop A)).
+Notation CIi := (@CIc A E_st E_in E_op).
+
+Lemma kcids_ops ops :
+  kcids (flat_map (fun p : @cop A => KOp p :: map (@KS A E_in) e_drain) ops) = [].
+Proof.
+  induction ops as [|p t IH]; [reflexivity|]. cbn [flat_map].
+  rewrite kcids_app, kcids_cons, kcids_KS, IH. reflexivity.
+Qed.
+Lemma pend_ops ops :
+  pend (flat_map (fun p : @cop A => KOp p :: map (@KS A E_in) e_drain) ops) = [].
+Proof.
+  induction ops as [|p t IH]; [reflexivity|]. cbn [flat_map].
+  rewrite pend_app, pend_cons, pend_KS, IH. reflexivity.
+Qed.
+
+Lemma CI_feed (c : kc) ops : CIi c -> CIi (feed e_exec e_call e_drain cold fuel c ops).
+Proof.
+  intros H. unfold feed. apply krun_ind; [apply CI_step|].
+  unfold CIc in *. cbn [k_bk k_k k_log]. now rewrite kcids_app, pend_app, kcids_ops, pend_ops, !app_nil_r.
+Qed.
+
+Definition all_CI (insts : list (nat * kc)) : Prop := Forall (fun x => CIi (snd x)) insts.
+
+Lemma mall_CI sel : forall insts rank,
+  all_CI insts -> all_CI (fst (mall e_exec e_call e_drain cold fuel sel rank insts)).
+Proof.
+  induction insts as [|[o c] t IH]; intros rank H; [constructor|].
+  inversion H as [|? ? Hc Ht]; subst. cbn [mall].
+  specialize (IH (S rank) Ht). destruct (mall e_exec e_call e_drain cold fuel sel (S rank) t) as [t' evs].
+  cbn [fst] in *. constructor; [|exact IH]. cbn [snd] in *.
+  destruct (sel o); [exact Hc|apply CI_feed; exact Hc].
+Qed.
+
+Lemma CI_fresh : CIi (KCfg st0 fresh_book (fun _ => None) [] []).
+Proof.
+  unfold CIc. cbn. constructor; cbn; try tauto; try lia; try discriminate.
+  intros cid [[]|[G|G]]; discriminate.
+Qed.
+
+Lemma mstep_CI insts p :
+  all_CI insts -> all_CI (fst (mstep e_exec e_call e_drain cold st0 fuel insts p)).
+Proof.
+  intros H. destruct p as [o|o| |j|v|e| |d]; cbn [mstep]; try (apply mall_CI; exact H); try exact H.
+  destruct (existsb _ insts); [exact H|]. cbn [fst]. apply Forall_app. split; [exact H|].
+  constructor; [|constructor]. cbn [snd]. apply CI_feed. apply CI_fresh.
+Qed.
+
+(* every per-subscriber connection of a run of the mapper form satisfies the connection
+   invariant: its source subscription log alternates, nothing is subscribed while it is
+   disconnected *)
+Theorem mapper_each_subscription_is_a_connection top : forall insts,
+  all_CI insts -> all_CI (fst (mrun e_exec e_call e_drain cold st0 fuel insts top)).
+Proof.
+  induction top as [|p t IH]; intros insts H; [exact H|]. cbn [mrun].
+  pose proof (mstep_CI insts p H) as G.
+  destruct (mstep e_exec e_call e_drain cold st0 fuel insts p) as [i1 e1]. cbn [fst] in G.
+  specialize (IH i1 G). destruct (mrun e_exec e_call e_drain cold st0 fuel i1 t) as [i2 e2]. exact IH.
+Qed.
+
+Theorem mapper_source_log_alternates top o c :
+  In (o, c) (fst (mrun e_exec e_call e_drain cold st0 fuel [] top)) ->
+  src_state (src_log (klog_of c)) <> None /\
+  (has_sub (k_bk c) = false -> src_state (src_log (klog_of c)) = Some None).
+Proof.
+  intros Hin. pose proof (mapper_each_subscription_is_a_connection top [] (Forall_nil _)) as H.
+  unfold all_CI in H. rewrite Forall_forall in H. specialize (H (o, c) Hin). cbn [snd] in H.
+  pose proof (ci_log _ _ _ _ H) as Hl. unfold slog in Hl. unfold klog_of. rewrite Hl. split; [discriminate|].
+  intros Hh.
+  assert (E : last_live (k_bk c) = false).
+  { unfold last_live. destruct (blen (k_bk c)) as [|n] eqn:En; [reflexivity|].
+    destruct (s_live (get_conn (k_bk c) n)) eqn:G; [|reflexivity].
+    rewrite (ci_comp _ _ _ _ H n) in G; [discriminate|lia|apply (ci_off _ _ _ _ H Hh); lia]. }
+  now rewrite E.
+Qed.
+End MapperFacts.
